@@ -20,12 +20,14 @@ import (
 type caseT struct {
 	node *ref.Node
 	text string
+	// groups overrides the field groups of the universe (nil: the groups the atoms read)
+	groups []string
 }
 
 func Run(tier string) int {
 	rep := mc.NewReporter("C03", tier, "model_checking")
 	rep.Driver = "c03"
-	budget := 100 * time.Second
+	budget := 170 * time.Second
 	if tier == "thorough" {
 		budget = 14 * time.Minute
 	}
@@ -54,8 +56,9 @@ func Run(tier string) int {
 	}
 	fams := []family{
 		{1, 1, alphabet, "1 leaf, <=1 not, full alphabet"},
-		{2, 2, alphabet, "2 leaves, <=2 nots, full alphabet"},
-		{3, 0, core, "3 leaves, no not, core alphabet"},
+		{2, 1, alphabet, "2 leaves, <=1 not, full alphabet"},
+		{2, 2, core, "2 leaves, <=2 nots, core alphabet"},
+		{3, 0, core[:min(len(core), 13)], "3 leaves, no not, 13 core atoms"},
 		{3, 1, mini, "3 leaves, <=1 not, mini alphabet"},
 	}
 	if tier == "thorough" {
@@ -91,9 +94,51 @@ func Run(tier string) int {
 				return
 			}
 			seenText[t] = true
-			cases = append(cases, caseT{n, t})
+			cases = append(cases, caseT{n, t, nil})
 			famCounts[fm.name]++
 		})
+	}
+	// THEN chains of 2-5 elements, each a data atom or an OR group of two: the shapes in which the
+	// normaliser concatenates sequences repeatedly
+	{
+		byText := map[string]*ref.Atom{}
+		for _, a := range alphabet {
+			byText[a.Text] = a.Atom
+		}
+		el := func(t string) *ref.Node { return ref.A(byText[t]) }
+		elems := []func() *ref.Node{
+			func() *ref.Node { return el("cdata:a") }, func() *ref.Node { return el("sdata:a") }, func() *ref.Node { return el("cdata:b") },
+			func() *ref.Node { return el("sdata:b") }, func() *ref.Node { return el("data:a") },
+			func() *ref.Node { return ref.Or(el("cdata:a"), el("sdata:b")) },
+		}
+		maxChain := 4
+		if tier == "thorough" {
+			maxChain = 5
+		}
+		var rec func(cur []int)
+		rec = func(cur []int) {
+			if len(cur) >= 2 {
+				kids := make([]*ref.Node, len(cur))
+				for i, c := range cur {
+					kids[i] = elems[c]()
+				}
+				for _, n := range []*ref.Node{ref.Then(kids...), ref.Not(ref.Then(kids...))} {
+					t := n.Text()
+					if !seenText[t] {
+						seenText[t] = true
+						cases = append(cases, caseT{n, t, []string{"datalong"}})
+						famCounts["then chains of 2-"+fmt.Sprint(maxChain)+" data elements (plain and negated)"]++
+					}
+				}
+			}
+			if len(cur) == maxChain {
+				return
+			}
+			for i := range elems {
+				rec(append(cur, i))
+			}
+		}
+		rec(nil)
 	}
 	uniCache := map[string][]*ref.Rec{}
 	job := mc.ShardedJob{
@@ -120,6 +165,9 @@ func Run(tier string) int {
 				gnames = append(gnames, g)
 			}
 			sort.Strings(gnames)
+			if c.groups != nil {
+				gnames = c.groups
+			}
 			key := strings.Join(gnames, ",")
 			recs, ok := uniCache[key]
 			if !ok {
